@@ -240,13 +240,15 @@ def check_cfg(F, R, cfg):
                                        "signing does not use the key's own seed expansion and verifying key", *(() if good else (fv.loc(t["line"]),)))
     R.floor("C08.sign.wiring", I("SigningKey -> raw_sign call sites"), wired, 2)
     import sig_rules as SR
-    for clause, f, status, msg in SR.sign_rule(F):
+    import itertools
+    for clause, f, status, msg in itertools.chain(SR.sign_rule(F), SR.prehashed_sign_rule(F) if F.has_cfg("feature=digest") else ()):
+        inst_ = "SigningKey::try_sign" if clause == "sign" else "SigningKey::" + clause
         if status == "ok":
-            R.ok("C08.sem.sign", I("SigningKey::try_sign"), msg)
+            R.ok("C08.sem.sign", I(inst_), msg)
         elif status == "viol":
-            R.viol("C08.sem.sign", I("SigningKey::try_sign"), msg, F.loc(f) if f else "")
+            R.viol("C08.sem.sign", I(inst_), msg, F.loc(f) if f else "")
         elif status == "missing":
-            R.anchor_missing("C08.sem.sign", I("SigningKey::try_sign"), msg)
+            R.anchor_missing("C08.sem.sign", I(inst_), msg)
         else:
             R.note("C08.sem.sign inconclusive (%s): the structural rules decide" % msg[:160])
 
